@@ -12,6 +12,7 @@ import SJ.Drv.C17
 import SJ.Drv.C08
 import SJ.Drv.C15
 import SJ.Drv.C16
+import SJ.Drv.C04
 /-!
 `sjdriver` — reads case lines `op args… => impl-observation` on stdin, runs the Lean model and the
 executable specification on each, prints
@@ -37,6 +38,7 @@ def allHandlers : List (String × Handler) :=
     C08.handlers,
     C15.handlers,
     C16.handlers,
+    C04.handlers,
   ]
 
 def findHandler (op : String) : Option Handler := (allHandlers.find? (·.1 == op)).map (·.2)
